@@ -65,6 +65,12 @@ def bumpAmt (rem : List Nat) : Nat :=
   | b :: _ => if b < 128 then 1 else 0
   | [] => 0
 
+/-- amount kind 29 bumps: the whole next character (by its lead byte), never more than there is -/
+def bumpChar (rem : List Nat) : Nat :=
+  match rem with
+  | b :: _ => min (if b < 128 then 1 else if b < 224 then 2 else if b < 240 then 3 else 4) rem.length
+  | [] => 0
+
 /-- The zoo's callback menu: kind code → (returned value, bump). Kind 0 = no callback. -/
 def zooRet (kind : Nat) (s rem : List Nat) : RetVal × Nat :=
   let z := sel s
@@ -100,6 +106,8 @@ def zooRet (kind : Nat) (s rem : List Nat) : RetVal × Nat :=
   -- closures that go on with the result of a helper they hand the lexer to: `|lex| h(lex) == false`, `|lex| h(lex).filter(|_| false)`
   | 27 => (if z == 0 then .boolTrue else .boolFalse, 0)
   | 28 => (.optNone, 0)
+  -- a callback that bumps over the next character and then rejects the match (round 29)
+  | 29 => (.boolFalse, bumpChar rem)
   | _ => (.plain, 0)
 
 /-- leaf kinds: 0 = skip leaf, 1 = unit variant, 2 = value variant -/
